@@ -1,3 +1,366 @@
 package main
 
-func checkMain(args []string) int { return 2 }
+import (
+	"encoding/json"
+	"flag"
+	"fmt"
+	"os"
+	"path/filepath"
+	"sort"
+	"strconv"
+	"strings"
+	"sync"
+	"time"
+)
+
+type KnownFinding struct {
+	Property   string `json:"property"`
+	Obligation string `json:"obligation"`
+	WhatFails  string `json:"what_fails"`
+	Replay     string `json:"replay,omitempty"`
+}
+
+type KnownFile struct {
+	Findings []KnownFinding `json:"findings"`
+	Fixed    []string       `json:"fixed"`
+}
+
+type ObReport struct {
+	Name     string   `json:"name"`
+	Kind     string   `json:"kind"`
+	Pos      string   `json:"pos,omitempty"`
+	Clause   string   `json:"clause,omitempty"`
+	Verdict  string   `json:"verdict"`
+	Solver   string   `json:"solver,omitempty"`
+	TimeS    float64  `json:"time_s"`
+	Attempts []string `json:"attempts,omitempty"`
+}
+
+func checkMain(args []string) int {
+	fs := flag.NewFlagSet("check", flag.ExitOnError)
+	tier := fs.String("tier", "quick", "quick|thorough")
+	repo := fs.String("repo", "/repo", "repository")
+	verif := fs.String("verif", "/verif", "verif dir")
+	replay := fs.String("replay", "", "replay file to re-run")
+	keep := fs.Bool("keep", false, "keep smt files")
+	if len(args) == 0 {
+		fmt.Fprintln(os.Stderr, "usage: govc check Cxx [--tier quick|thorough]")
+		return 2
+	}
+	prop := args[0]
+	fs.Parse(args[1:])
+	seed := 1
+	if s := os.Getenv("VERIF_SEED"); s != "" {
+		if n, err := strconv.Atoi(s); err == nil {
+			seed = n
+		}
+	}
+	if t := os.Getenv("VERIF_TIER"); t != "" && *tier == "" {
+		*tier = t
+	}
+	if *replay != "" {
+		return replayMain(prop, *replay, *repo, *verif)
+	}
+	start := time.Now()
+	eng, err := loadEngine(*repo, findSpecFiles(filepath.Join(*verif, "govc/trusted")))
+	if err != nil {
+		fmt.Fprintln(os.Stderr, "machinery error:", err)
+		return 2
+	}
+	funcs := eng.contracts.funcsWithProp(prop)
+	var lemmas []*Lemma
+	for _, l := range eng.contracts.Lemmas {
+		for _, p := range l.Props {
+			if p == prop {
+				lemmas = append(lemmas, l)
+			}
+		}
+	}
+	if len(funcs) == 0 && len(lemmas) == 0 {
+		fmt.Fprintf(os.Stderr, "machinery error: no contract is tagged with property %s\n", prop)
+		return 2
+	}
+	outDir := filepath.Join(*verif, "out", fmt.Sprintf("%s-%s-%d", prop, *tier, os.Getpid()))
+	os.MkdirAll(outDir, 0o755)
+	opts := solveOpts{outDir: outDir, quickS: 10, retryS: 20, seed: seed, keep: *keep}
+	if *tier == "thorough" {
+		opts.quickS, opts.retryS = 60, 120
+	}
+	type unit struct {
+		fc  *FnCtx
+		tag string
+	}
+	var units []unit
+	var underContract []string
+	for _, f := range funcs {
+		if f.Assume || f.Opaque {
+			continue // assumed contracts generate no obligations; they are listed in assumptions
+		}
+		fn := eng.funcByKey[f.Key]
+		if fn == nil || len(fn.Blocks) == 0 {
+			eng.staleErrs = append(eng.staleErrs, fmt.Sprintf("contract-stale: %s: no such function in the repository (%s)", f.Key, f.Src))
+			continue
+		}
+		fc, err := eng.verifyFunc(fn, f.Props)
+		if err != nil {
+			eng.staleErrs = append(eng.staleErrs, err.Error())
+			continue
+		}
+		units = append(units, unit{fc, f.Key})
+		underContract = append(underContract, f.Key)
+	}
+	for _, l := range lemmas {
+		fc, err := eng.lemmaCtx(l)
+		if err != nil {
+			eng.staleErrs = append(eng.staleErrs, err.Error())
+			continue
+		}
+		units = append(units, unit{fc, "lemma_" + l.Name})
+		underContract = append(underContract, "lemma:"+l.Name)
+	}
+	if len(eng.staleErrs) > 0 {
+		for _, s := range eng.staleErrs {
+			fmt.Fprintln(os.Stderr, s)
+		}
+	}
+	var wg sync.WaitGroup
+	sem := make(chan struct{}, 4)
+	for _, u := range units {
+		wg.Add(1)
+		go func(u unit) {
+			defer wg.Done()
+			sem <- struct{}{}
+			defer func() { <-sem }()
+			u.fc.solveAll(opts, u.tag)
+		}(u)
+	}
+	wg.Wait()
+
+	known := loadKnown(filepath.Join(*verif, "known_findings.json"))
+	knownBy := map[string]KnownFinding{}
+	for _, k := range known.Findings {
+		if k.Property == prop {
+			knownBy[k.Obligation] = k
+		}
+	}
+	total, discharged := 0, 0
+	solverTime := 0.0
+	bySolver := map[string]int{}
+	var reports []ObReport
+	var samples []any
+	var violations, knownHits []*Obligation
+	assumptions := map[string]bool{}
+	var outOfSubset []string
+	for _, u := range units {
+		for a := range u.fc.assumes {
+			assumptions[a] = true
+		}
+		for _, w := range u.fc.outOfSubset {
+			outOfSubset = append(outOfSubset, funcKeyOrLemma(u.fc)+": "+w)
+		}
+		for _, w := range u.fc.warnings {
+			assumptions["warning: "+w] = true
+		}
+		for _, ob := range u.fc.obls {
+			tagged := false
+			for _, p := range ob.Props {
+				if p == prop {
+					tagged = true
+				}
+			}
+			if !tagged && !ob.Cover {
+				continue
+			}
+			want := "unsat"
+			if ob.Cover {
+				want = "sat"
+			}
+			r := ob.Result
+			if r == nil {
+				r = &SolveResult{Verdict: "none"}
+			}
+			solverTime += r.TimeS
+			rep := ObReport{Name: ob.Name, Kind: ob.Kind, Pos: ob.Pos, Clause: ob.Text, Verdict: r.Verdict, Solver: r.Solver, TimeS: r.TimeS, Attempts: r.Attempts}
+			if ob.Cover {
+				// vacuity probes are not proof obligations; a refuted one breaks the check
+				if r.Verdict != want {
+					fmt.Fprintf(os.Stderr, "machinery error: vacuous contract: %s is unsatisfiable\n", ob.Name)
+					eng.staleErrs = append(eng.staleErrs, "vacuous: "+ob.Name)
+				}
+				continue
+			}
+			total++
+			if r.Verdict == want {
+				discharged++
+				bySolver[r.Solver]++
+				if len(samples) < 6 && r.Solver != "syntactic" {
+					samples = append(samples, map[string]any{"obligation": ob.Name, "kind": ob.Kind, "at": ob.Pos, "clause": ob.Text, "solver": r.Solver, "verdict": r.Verdict})
+				}
+			} else if _, isKnown := knownBy[ob.Name]; isKnown {
+				knownHits = append(knownHits, ob)
+			} else {
+				violations = append(violations, ob)
+			}
+			reports = append(reports, rep)
+		}
+	}
+	if len(eng.staleErrs) > 0 {
+		fmt.Fprintln(os.Stderr, "machinery error: contracts do not match the code (see above); no verdict")
+		return 2
+	}
+	if total == 0 {
+		fmt.Fprintln(os.Stderr, "machinery error: zero obligations generated")
+		return 2
+	}
+	// a known finding that is now discharged is simply discharged (a fixed entry suppresses nothing)
+	os.MkdirAll(filepath.Join(*verif, "replays"), 0o755)
+	os.MkdirAll(filepath.Join(*verif, "evidence"), 0o755)
+	for _, ob := range knownHits {
+		k := knownBy[ob.Name]
+		fmt.Printf("KNOWN-FINDING: property=%s %s: %s\n", prop, ob.Name, k.WhatFails)
+	}
+	exit := 0
+	for _, ob := range violations {
+		path := filepath.Join(*verif, "replays", fmt.Sprintf("%s-%s.json", prop, mangle(ob.Name)))
+		reproduced := writeReplay(path, prop, ob, eng, *repo, *verif)
+		suffix := ""
+		if !reproduced {
+			suffix = " no-failing-input-found"
+		}
+		fmt.Printf("VIOLATION property=%s replay=%s obligation=%s%s\n", prop, path, ob.Name, suffix)
+		exit = 1
+	}
+	var as []string
+	for a := range assumptions {
+		as = append(as, a)
+	}
+	sort.Strings(as)
+	sort.Strings(outOfSubset)
+	for _, o := range outOfSubset {
+		as = append(as, "out-of-subset (abstracted as unknown value): "+o)
+	}
+	as = append(as, "go/ssa (x/tools v0.50.0) is the front end instead of the gc compiler; govc's SSA->SMT translation and the SMT solvers are trusted",
+		"machine integers are SMT Int with exact wraparound; spec-level arithmetic is mathematical",
+		"pointer validity / type safety of the Go heap (no unsafe, no data races) is a typing invariant assumed at loads")
+	var trusted []string
+	for _, a := range as {
+		if strings.HasPrefix(a, "assumed contract") || strings.HasPrefix(a, "default-summary") || strings.HasPrefix(a, "unspecified external") {
+			trusted = append(trusted, a)
+		}
+	}
+	trusted = append(trusted, "z3 4.8.12, z3 5.1.0, cvc5 1.0.3", "golang.org/x/tools/go/ssa v0.50.0", "govc VC generator (/verif/govc)")
+	level := "proof"
+	cov := map[string]any{
+		"obligations":              total,
+		"discharged":               discharged,
+		"checker_cmd":              fmt.Sprintf("/verif/check %s --tier %s   (per obligation: z3-new|z3|cvc5 <file>.smt2, kept under /verif/out on failure or with --keep)", prop, *tier),
+		"trusted_base":             trusted,
+		"functions_under_contract": underContract,
+		"solver_time_s":            solverTime,
+		"by_solver":                bySolver,
+		"samples":                  samples,
+		"bounded":                  []string{},
+		"known_findings":           len(knownHits),
+		"obligation_reports":       reports,
+	}
+	if discharged != total {
+		level = "other"
+		var names []string
+		for _, ob := range knownHits {
+			names = append(names, ob.Name+" (known finding)")
+		}
+		for _, ob := range violations {
+			names = append(names, ob.Name+" (VIOLATION)")
+		}
+		cov["explanation"] = fmt.Sprintf("%d of %d obligations discharged; undischarged: %s", discharged, total, strings.Join(names, "; "))
+	}
+	ev := map[string]any{
+		"property_id": prop, "tier": *tier, "seed": seed, "level": level, "coverage": cov,
+		"assumptions": as, "wall_s": time.Since(start).Seconds(), "violations": len(violations),
+	}
+	data, _ := json.MarshalIndent(ev, "", " ")
+	os.WriteFile(filepath.Join(*verif, "evidence", prop+".json"), data, 0o644)
+	fmt.Printf("%s: %d obligations, %d discharged, %d known findings, %d violations (%.1fs)\n", prop, total, discharged, len(knownHits), len(violations), time.Since(start).Seconds())
+	if exit == 0 && !*keep {
+		os.RemoveAll(outDir)
+	}
+	return exit
+}
+
+func loadKnown(path string) *KnownFile {
+	k := &KnownFile{}
+	data, err := os.ReadFile(path)
+	if err != nil {
+		return k
+	}
+	json.Unmarshal(data, k)
+	return k
+}
+
+// writeReplay records the failed obligation and, where a model and a template exist, replays it on the real code.
+func writeReplay(path, prop string, ob *Obligation, eng *Engine, repo, verif string) bool {
+	r := ob.Result
+	if r == nil {
+		r = &SolveResult{Verdict: "none"}
+	}
+	rec := map[string]any{
+		"property":   prop,
+		"obligation": ob.Name,
+		"kind":       ob.Kind,
+		"at":         ob.Pos,
+		"clause":     ob.Text,
+		"verdict":    r.Verdict,
+		"solver":     r.Solver,
+		"attempts":   r.Attempts,
+		"smt_file":   ob.Known,
+		"solver_output": truncate(r.Raw, 20000),
+	}
+	reproduced := false
+	if r.Verdict == "sat" && r.Model != "" {
+		rec["model"] = truncate(r.Model, 20000)
+		ok, detail := tryReplay(eng, ob, r.Model, repo, verif)
+		rec["replay"] = detail
+		reproduced = ok
+	}
+	if !reproduced {
+		rec["result"] = "no-failing-input-found"
+	} else {
+		rec["result"] = "reproduced on the real code"
+	}
+	data, _ := json.MarshalIndent(rec, "", " ")
+	os.WriteFile(path, data, 0o644)
+	return reproduced
+}
+
+func truncate(s string, n int) string {
+	if len(s) > n {
+		return s[:n] + "\n…(truncated)"
+	}
+	return s
+}
+
+func replayMain(prop, path, repo, verif string) int {
+	data, err := os.ReadFile(path)
+	if err != nil {
+		fmt.Fprintln(os.Stderr, err)
+		return 2
+	}
+	var rec map[string]any
+	json.Unmarshal(data, &rec)
+	fmt.Printf("replay %s: obligation %v, recorded result: %v\n", path, rec["obligation"], rec["result"])
+	if t, ok := rec["replay"].(map[string]any); ok {
+		if src, ok := t["test_source"].(string); ok {
+			pkg, _ := t["package"].(string)
+			okRun, out := runOverlayTest(repo, pkg, src, "TestGovcReplay")
+			fmt.Println(out)
+			if okRun {
+				fmt.Println("replay: the real code no longer fails on this input")
+				return 0
+			}
+			fmt.Printf("VIOLATION property=%s replay=%s\n", prop, path)
+			return 1
+		}
+	}
+	fmt.Println("no replayable input recorded (no-failing-input-found)")
+	return 0
+}
